@@ -42,9 +42,29 @@ class Contract:
         self.callback: bool = kw.pop("callback", False)
         # frame=True: prove at every exit that no field of a pre-existing object outside `modifies` was written
         self.frame: bool = kw.pop("frame", False)
+        # ghost parameters: {name: type}; universally quantified when the function is verified, supplied by the caller's
+        # ghost_args = {callee key: {ghost param: expr over the caller's state at the call}} at call sites
+        self.ghost_params: dict[str, str] = kw.pop("ghost_params", {})
+        self.ghost_args: dict[str, dict[str, str]] = kw.pop("ghost_args", {})
+        # native witnesses for ghost parameters (engine/native only): {name: python expression over the parameters}
+        self.ghost_native: dict[str, str] = kw.pop("ghost_native", {})
+        # check_frame: when the function is verified, every heap field it writes (or lets a callee havoc) must be
+        # covered by `modifies` (fields of objects created by the function, and self.* in __init__, excepted)
+        self.check_frame: bool = kw.pop("check_frame", False)
+        # types of unannotated locals initialised with an empty literal ("xs = []"): {name: type}
+        self.local_types: dict[str, str] = kw.pop("locals", {})
+        # objects (expressions over the function's parameters) that opaque callables cannot reach: all their fields
+        # survive an opaque call made while this function runs.  An ASSUMPTION about the caller (recorded as such).
+        self.opaque_keeps: list[str] = kw.pop("opaque_keeps", [])
         self.specialize: dict[str, list] = kw.pop("specialize", {})  # param -> concrete values (case split, completeness proved)  # labelled assumptions (listed in evidence)
         if kw:
             raise TypeError("unknown contract keys %s for %s" % (list(kw), key))
+
+
+class DictSum:
+    def __init__(self, cls, dict_field, counter, term, value_cls):
+        self.cls, self.dict_field, self.counter, self.term, self.value_cls = cls, dict_field, counter, term, value_cls
+        self.reads = None  # field names read by the term (filled lazily from the spec function's AST)
 
 
 class Registry:
@@ -63,6 +83,8 @@ class Registry:
         self.extern_modules: dict[str, str] = {}
         self.ufuncs: dict[str, tuple] = {}  # uninterpreted spec functions: name -> ([arg type strings], result type string)
         self.module_names: set[str] = set()  # names of imported third-party / stdlib modules (attribute access gives ModAttr)
+        # (owner class, dict field) -> DictSum: engine-maintained exact sum of term(value) over the dict's values
+        self.dict_sums: dict[tuple[str, str], list] = {}  # several sums (different terms) may ride on one dict
 
     # ---- declaration API used by sidecar files
     def contract(self, key, **kw):
@@ -74,6 +96,14 @@ class Registry:
     def ghost_field(self, cls, name, ty, native=None):
         self.fields.setdefault(cls, {})[name] = ty
         self.ghost.setdefault(cls, {})[name] = native
+
+    def dict_sum(self, cls, dict_field, counter, term, value_cls):
+        """ghost field `counter` of `cls` = sum over the values v of the dict field `dict_field` of the spec function
+        `term`(v).  The ENGINE updates the counter at every mutation of that dict (store / del / pop / clear), so the
+        equality with the mathematical sum holds by construction (engine/pyvc/dictiter.py)."""
+        self.fields.setdefault(cls, {})[counter] = "int"
+        self.ghost.setdefault(cls, {})[counter] = None
+        self.dict_sums.setdefault((cls, dict_field), []).append(DictSum(cls, dict_field, counter, term, value_cls))
 
     def spec(self, src):
         self.spec_src.append(src)
